@@ -8,7 +8,7 @@ import lib
 from lib import cQ, clist
 
 REQ = ("From Coq Require Import NArith ZArith QArith List.\nImport ListNotations.\n"
-       "From PV Require Import Clone.GroupSpec Clone.GroupRun.\nOpen Scope N_scope.")
+       "From PV Require Import Clone.GroupSpec Clone.GroupRun Clone.GroupNorm.\nOpen Scope N_scope.")
 MODES = ["connected", "complete_linkage", "k_core", "star"]
 MN = {m: i for i, m in enumerate(MODES)}
 EPS = Fraction(1, 64)
@@ -281,18 +281,31 @@ def lattice_jobs(scopes, chunk=1500):
 def explicit_jobs(items, shard_explicit=40):
     """items: (idx, case, impl groups) evaluated one by one with GroupRun.verdict."""
     jobs = []
-    cur, weight = [], 0
+    cur, defs, weight = [], {}, 0
 
     def flush():
-        nonlocal cur, weight
+        nonlocal cur, defs, weight
         if cur:
-            body = "Eval vm_compute in concat [%s].\n" % ";\n".join(cur)
+            body = "".join("Definition %s : pgraph := %s.\n" % (nm, g) for g, nm in defs.items())
+            body += "Eval vm_compute in concat [%s].\n" % ";\n".join(cur)
             jobs.append(("C10_expl_%d" % len(jobs), REQ, body))
-        cur, weight = [], 0
+        cur, defs, weight = [], {}, 0
     for idx, c, g in items:
-        cur.append("verdict %d %d (%d)%%Z %s %s [%s] %s" % (idx, MN[c["mode"]], c["k"], cQ(c["t"]), cgraph(case_pairs(c)),
-                                                          ";".join(str(x) for x in case_ord(c)), cgroups(g)))
-        weight += 1 + (c["n"] ** 3) // 400 + len(case_pairs(c)) // 10
+        # float similarities (detector runs, CLI reports): verdict_norm = verdict (C10_verdict_normalised) decides t <= s once per pair
+        fn = "verdict_norm" if c.get("det") or c.get("e2e") else "verdict"
+        graph = cgraph(case_pairs(c))
+        w = 1 + (c["n"] ** 3) // 400
+        if c.get("det"):
+            # the runs of one detection path and cap report the same pair list under every grouping mode: parse it once per shard
+            if graph not in defs:
+                defs[graph] = "g%d" % len(defs)
+                w += len(case_pairs(c)) // 3
+            graph = defs[graph]
+        else:
+            w += len(case_pairs(c)) // (3 if fn == "verdict_norm" else 10)
+        cur.append("%s %d %d (%d)%%Z %s %s [%s] %s" % (fn, idx, MN[c["mode"]], c["k"], cQ(c["t"]), graph,
+                                                      ";".join(str(x) for x in case_ord(c)), cgroups(g)))
+        weight += w
         if weight >= shard_explicit * 4:
             flush()
     flush()
@@ -332,6 +345,14 @@ def request_of(c, repeat):
 
 
 def replay_of(c, extra=None):
+    if c.get("det"):
+        # one real detector call: feed "driver_request" to build/bin/pyscn-verif; pairs/groups are numbered by location order
+        d = {"kind": "detector", "path": c["path"], "MaxClonePairs": c["cap"], "pairs_without_cap": c["uncapped_pairs"],
+             "mode": c["mode"], "threshold": str(c["t"]), "threshold_float": float(c["t"]), "k": c["k"], "n": c["n"],
+             "pairs": [[i, j, str(s)] for i, j, s in c["pairs"]], "locations": c["locations"], "driver_request": c["request"]}
+        if extra:
+            d.update(extra)
+        return d
     d = {"kind": "group", "mode": c["mode"], "threshold": str(c["t"]), "k": c["k"], "n": c["n"],
          "pairs": [[i, j, str(s)] for i, j, s in case_pairs(c)], "driver_request": request_of(c, 1)}
     if c["kind"] == "lattice":
@@ -403,13 +424,15 @@ def loc_key(cl):
 
 
 ALL_TYPES = 'enabled_clone_types = ["type1", "type2", "type3", "type4"]\n'
+LSH_ON = 'lsh_enabled = "true"\n'
+CLI_PAIR_CAP = 10000        # MaxClonePairs of the detector the service builds (service/clone_service.go)
 
 
-def cli_run(ck, d, mode, thr, k, all_types):
+def cli_run(ck, d, mode, thr, k, all_types, extra=""):
     """One `pyscn analyze --select clones` run; returns (order, pairs, groups, request) or None."""
     with open(os.path.join(d, ".pyscn.toml"), "w") as f:
-        f.write('[clones]\ngrouping_mode = "%s"\ngrouping_threshold = %s\nk_core_k = %d\nsimilarity_threshold = 0.6\n%s'
-                % (mode, thr, k, ALL_TYPES if all_types else ""))
+        f.write('[clones]\ngrouping_mode = "%s"\ngrouping_threshold = %s\nk_core_k = %d\nsimilarity_threshold = 0.6\n%s%s'
+                % (mode, thr, k, ALL_TYPES if all_types else "", extra))
     rc, data, err = lib.analyze_json(d, ["--select", "clones"])
     if data is None or not data.get("clone"):
         ck.broken_ties.append("e2e: pyscn analyze (mode %s) produced no clone report (rc=%s): %s" % (mode, rc, err[-300:]))
@@ -430,6 +453,56 @@ def number(cl, order):
     pairs = [(num[loc_key(p["clone1"])], num[loc_key(p["clone2"])], Fraction(p["similarity"])) for p in cl.get("clone_pairs") or []]
     groups = [sorted(num[loc_key(c)] for c in g["clones"]) for g in cl.get("clone_groups") or []]
     return pairs, groups
+
+
+BIG = '''def handler_{i}(request, context):
+    field_a = request.get("a", context)
+    field_b = request.get("b", {c})
+{extra}    return build(field_a, field_b)
+'''
+
+
+def e2e_lsh_capped(ck, rng, modes):
+    """CLI with LSH on and MORE clone pairs than the detector keeps (cap 10000): clone.clone_groups[] against the
+    clone.clone_pairs[] of the same report. One family of n near-identical small functions (n(n-1)/2 > cap; a few members carry
+    an extra statement, their pairs are the weaker ones) and a small unrelated family whose pairs are the weakest of all.
+    Decided with the Python statement of the contract only (10^4 pairs on ~150 fragments). Returns statistics."""
+    st = {"runs": 0, "reported_pairs": [], "fragments": 0, "capped": 0}
+    n = rng.randint(146, 150)
+    d = lib.fresh_dir("c10_e2e_lsh")
+    weak = set(rng.sample(range(n), rng.randint(2, 4)))
+    parts = [BIG.format(i=i, c=rng.randint(1, 9), extra="    context = dict(context)\n" if i in weak else "") for i in range(n)]
+    zex = rng.sample(DET_Z_EXTRA[1:], 2)
+    others = [DET_Z.format(name="other%d" % i, extra=zex[i]) for i in range(2)]
+    cut = rng.randint(1, n - 1)
+    with open(os.path.join(d, "handlers.py"), "w") as f:
+        f.write("\n\n".join(parts[:cut] + others[:1]))
+    with open(os.path.join(d, "more.py"), "w") as f:
+        f.write("\n\n".join(others[1:] + parts[cut:]))
+    for mode in modes:
+        thr = rng.choice([0.65, 0.7, 0.8])
+        k = rng.choice([2, 3])
+        res = cli_run(ck, d, mode, thr, k, True, LSH_ON + "min_lines = 3\nmin_nodes = 3\n" +
+                      rng.choice(["", "enable_dfa = false\n"]))
+        if res is None:
+            continue
+        cl, keys = res
+        order = sorted(keys)
+        pairs, groups = number(cl, order)
+        st["runs"] += 1
+        st["reported_pairs"].append(len(pairs))
+        st["fragments"] = (cl.get("statistics") or {}).get("total_fragments")
+        st["capped"] += len(pairs) >= CLI_PAIR_CAP
+        why = py_contract(mode, k, Fraction(thr), pairs, groups)
+        if why:
+            ck.violation("pyscn analyze with lsh_enabled = \"true\" and %d reported pairs (detector cap %d), clone.clone_groups[] against "
+                         "clone.clone_pairs[] of the same report, mode %s threshold %s k %d: %s" % (len(pairs), CLI_PAIR_CAP, mode, thr, k, why[:400]),
+                         {"kind": "e2e-lsh-capped", "dir": d, "config": open(os.path.join(d, ".pyscn.toml")).read(), "mode": mode,
+                          "threshold": thr, "k": k, "reported_pairs": len(pairs), "groups": [[order[x] for x in g][:6] + ["... %d members" % len(g)] for g in groups][:10],
+                          "how": "cd <dir> && pyscn analyze --json --no-open --select clones ."})
+    if st["runs"] and not st["capped"]:
+        ck.broken_ties.append("e2e: the large LSH project reported fewer pairs than the detector cap (generator too weak): %s" % st)
+    return st
 
 
 def e2e(ck, rng, runs):
@@ -458,6 +531,17 @@ def e2e(ck, rng, runs):
             cases.append({"kind": "explicit", "e2e": True, "n": len(order), "pairs": pairs, "t": Fraction(thr), "mode": mode, "k": k,
                           "ord": collect(pairs), "dir": d, "locations": order})
             impls.append(groups)
+            # the same project through the LSH pipeline (DetectClonesWithLSH with UseLSH on)
+            resl = cli_run(ck, d, mode, thr, k, True, LSH_ON)
+            if resl is not None:
+                cll, keysl = resl
+                if ((cll.get("request") or {}).get("lsh_enabled")) != "true":
+                    ck.broken_ties.append("e2e: lsh_enabled = \"true\" of .pyscn.toml did not reach the clone request: %s" % (cll.get("request") or {}).get("lsh_enabled"))
+                orderl = sorted(keysl)
+                pairsl, groupsl = number(cll, orderl)
+                cases.append({"kind": "explicit", "e2e": True, "lsh": True, "n": len(orderl), "pairs": pairsl, "t": Fraction(thr), "mode": mode, "k": k,
+                              "ord": collect(pairsl), "dir": d, "locations": orderl, "config": open(os.path.join(d, ".pyscn.toml")).read()})
+                impls.append(groupsl)
             # the same run with the default clone-type filter of the report (type 3 pairs hidden)
             if mode in ("connected", "star") and r == 0:
                 res2 = cli_run(ck, d, mode, thr, k, False)
@@ -481,6 +565,181 @@ def e2e(ck, rng, runs):
                                      {"kind": "e2e-filter", "dir": d, "tags": tags, "reported_pairs": [[a, b, str(s)] for a, b, s in pairs2],
                                       "groups": groups2, "hidden_pairs": hidden, "locations": order2})
     return cases, impls
+
+
+# --------------------------------------------------------------------------------------
+# detector level: the groups a detector call returns against the pairs the SAME call reports,
+# for every detection path x grouping mode x pair cap (MaxClonePairs)
+# --------------------------------------------------------------------------------------
+DET_A = '''def {name}(values, bound):
+    acc = 0
+    for v in values:
+        acc += v * {c2}
+{extra}    return acc + {c3}
+'''
+DET_A_EXTRA = ["", "", "    acc = abs(acc)\n", "    bound += 1\n", "    values = list(values)\n", "    acc -= bound\n", "    acc -= bound\n    bound = 0\n"]
+DET_B = '''def {name}(request, context):
+    field_a = request.get("a", context)
+    field_b = request.get("b", {c2})
+{extra}    return build(field_a, field_b, {c3})
+'''
+DET_B_EXTRA = ["", "", "    field_c = request.get(\"c\", context)\n", "    context = dict(context)\n", "    field_b = field_b or field_a\n",
+               "    context = None\n", "    del context\n    field_a += 1\n"]
+DET_C = '''def {name}(values, bound):
+    acc = 0
+    for v in values:
+        if v > bound:
+            acc += v * {c1}
+        else:
+            acc -= {c2}
+{extra}    return acc + {c3}
+'''
+DET_C_EXTRA = ["", "", "    acc = abs(acc)\n", "    bound += 1\n", "    if acc < 0:\n        acc = 0\n", "    values = list(values)\n",
+               "    acc = abs(acc)\n    bound += 1\n"]
+DET_Z = '''def {name}(path, sep):
+    out = []
+    with open(path) as fh:
+        out.append(fh.read().split(sep))
+{extra}    return out
+'''
+DET_Z_EXTRA = ["", "    out.sort()\n", "    while out and not out[-1]:\n        out.pop()\n", "    sep = sep.strip()\n    print(sep)\n",
+               "    out.reverse()\n    out.append(sep)\n"]
+# template, variations, MinLines choices (the largest keeps whole functions only; DET_C with 4 adds its nested for blocks:
+# overlapping fragments are never paired)
+DET_TEMPLATES = [(DET_A, DET_A_EXTRA, [4]), (DET_B, DET_B_EXTRA, [3]), (DET_C, DET_C_EXTRA, [6, 4])]
+DET_PATHS = {   # detection path -> (hook path, configuration that selects it)
+    "standard": ("detect", {"BatchSizeThreshold": 100000}),                     # double loop unless the cap forces one whole batch
+    "batched": ("detect", {"BatchSizeThreshold": 3, "BatchSizeLarge": 5}),      # batches of 5 fragments
+    "lsh": ("lsh", {"LSHSimilarityThreshold": 0.3}),                            # DetectClonesWithLSH
+}
+
+
+def det_family(rng, n_members, n_other, big):
+    """Sources with one large family of near-identical small functions (n members -> up to n(n-1)/2 mutually similar
+    pairs with a handful of distinct similarity values) and a small unrelated family whose pairs are weaker."""
+    tmpl, extras, min_lines = DET_TEMPLATES[2] if big else rng.choice(DET_TEMPLATES[:2])
+    nfiles = rng.choice([1, 2, 3])
+    names = rng.sample(["pkg/a.py", "pkg/b.py", "lib.py", "pkg/sub/c.py", "z.py"], nfiles)
+    texts = {nm: [] for nm in names}
+    for i in range(n_members):
+        texts[rng.choice(names)].append(tmpl.format(name="fam%d" % i, c1=rng.randint(1, 3), c2=rng.randint(1, 3), c3=rng.randint(1, 2),
+                                                    extra=rng.choice(extras)))
+    zex = rng.sample(DET_Z_EXTRA, n_other)
+    for i in range(n_other):
+        texts[rng.choice(names)].append(DET_Z.format(name="other%d" % i, extra=zex[i]))
+    files = []
+    for nm in names:
+        parts = texts[nm]
+        rng.shuffle(parts)
+        if parts:
+            files.append({"path": nm, "text": "\n\n".join(parts)})
+    rng.shuffle(files)          # the fragment list order is not the location order
+    # small functions: one changed statement moves the similarity a lot, so pairs are reported from 0.45 upwards
+    cfg = {"MinLines": rng.choice(min_lines), "MinNodes": 3, "Type4Threshold": 0.45, "Type3Threshold": 0.6, "SimilarityThreshold": 0.45}
+    return files, cfg
+
+
+def det_thresholds(rng, sims):
+    """Grouping thresholds on the boundary lattice of the observed similarities: exactly an observed value
+    (pairs with that value count), the next float above it (they do not), the lowest value, the default."""
+    import math
+    s = sorted(set(sims))
+    mid = s[len(s) // 2]
+    lo = s[0]
+    cands = [lo, mid, math.nextafter(mid, 2.0), s[max(0, len(s) // 2 - 1)], 0.8, math.nextafter(lo, 2.0)]
+    return [c for c in cands if 0.0 < c <= 1.0]
+
+
+def det_number(frags):
+    """fragment index of the hook -> rank in the location order (fragmentLess)."""
+    order = sorted(range(len(frags)), key=lambda i: (frags[i][0], frags[i][1], frags[i][2], frags[i][3], frags[i][4]))
+    num = {fi: r for r, fi in enumerate(order)}
+    return num, [frags[i] for i in order]
+
+
+def detector_cases(ck, rng, thorough):
+    """Returns (cases, impl groups, stats). Every case is one real detector call: its reported pairs are the graph,
+    its returned groups are decided against the contract on exactly those pairs."""
+    cases, impls = [], []
+    stats = {"families": 0, "runs": 0, "truncated_runs": 0, "truncation_sensitive": {p: 0 for p in DET_PATHS}, "by_path": {p: 0 for p in DET_PATHS},
+             "fragments": [], "uncapped_pairs": []}
+    sizes = [rng.randint(12, 16)]
+    if thorough:
+        sizes += [rng.randint(12, 40) for _ in range(5)] + [40]
+    fams = []
+    for fi, n_members in enumerate(sizes):
+        # quick: small functions (the pair detection itself is not the subject here); thorough adds larger ones with nested fragments
+        fams.append(det_family(rng, n_members, rng.choice([2, 3]), big=thorough and fi % 2 == 1 and n_members <= 24))
+    # phase 1: every path without a cap, to learn how many pairs it reports and which similarities occur
+    res1 = lib.driver([{"op": "clone_groups", "files": files, "cfg": cfg,
+                        "runs": [{"path": DET_PATHS[p][0], "cfg": dict(DET_PATHS[p][1], MaxClonePairs=10000)} for p in DET_PATHS]}
+                       for files, cfg in fams])
+    reqs, meta = [], []
+    for (files, cfg), r1 in zip(fams, res1):
+        if "error" in r1 or r1.get("parse_errors"):
+            ck.broken_ties.append("detector hook clone_groups failed: %s" % str(r1)[:400])
+            continue
+        stats["families"] += 1
+        stats["fragments"].append(len(r1["frags"]))
+        runs = []
+        for p, ru in zip(DET_PATHS, r1["runs"]):
+            total = len(ru["pairs"])
+            stats["uncapped_pairs"].append(total)
+            if total < 3:
+                ck.broken_ties.append("detector family gave only %d pairs on path %s (generator too weak)" % (total, p))
+                continue
+            thrs = det_thresholds(rng, [x[2] for x in ru["pairs"]])
+            # the boundary values of the cap: none (the CLI's 10000, or exactly the number of pairs), one less, well below, one
+            caps = [rng.choice([10000, total]), total - 1, rng.randint(2, max(2, total // 3)), 1]
+            if thorough:
+                caps = [10000, total, total - 1, total - 2, rng.randint(2, max(2, total // 3)), rng.randint(2, max(2, total - 3)), 2, 1]
+            settings = [(mode, rng.choice(thrs), rng.choice([2, 3, 2, 3, 1]) if mode == "k_core" else 2) for mode in MODES]
+            for cap in caps:
+                for mode, thr, k in settings:
+                    runs.append((p, mode, thr, k, cap, total))
+        reqs.append({"op": "clone_groups", "files": files, "cfg": cfg,
+                     "runs": [{"path": DET_PATHS[p][0], "cfg": dict(DET_PATHS[p][1], MaxClonePairs=cap, GroupingMode=mode,
+                                                                      GroupingThreshold=thr, KCoreK=k)} for p, mode, thr, k, cap, total in runs]})
+        meta.append(runs)
+    res2 = lib.driver(reqs) if reqs else []
+    for req, runs, r2 in zip(reqs, meta, res2):
+        if "error" in r2:
+            ck.broken_ties.append("detector hook clone_groups failed: %s" % str(r2)[:400])
+            continue
+        num, locations = det_number(r2["frags"])
+        uncapped = {}
+        for run_req, (p, mode, thr, k, cap, total), ru in zip(req["runs"], runs, r2["runs"]):
+            stats["runs"] += 1
+            stats["by_path"][p] += 1
+            one = {"op": "clone_groups", "files": req["files"], "cfg": req["cfg"], "runs": [run_req]}
+            pairs = [(num.get(a, -1), num.get(b, -1), Fraction(s)) for a, b, s, _ in ru["pairs"]]
+            groups = [[num.get(m, -1) for m in g["members"]] for g in ru["groups"]]
+            c = {"kind": "explicit", "det": True, "n": len(locations), "pairs": pairs, "t": Fraction(thr), "mode": mode, "k": k,
+                 "ord": collect(pairs), "path": p, "cap": cap, "uncapped_pairs": total, "request": one, "locations": locations}
+            if any(x < 0 for g in groups for x in g) or any(a < 0 or b < 0 for a, b, _ in pairs):
+                ck.violation("detector path %s, mode %s: a returned pair or group refers to a fragment that was not passed in" % (p, mode),
+                             replay_of(c, {"impl": ru}))
+                continue
+            if any(g["size"] != len(g["members"]) for g in ru["groups"]):
+                ck.violation("detector path %s, mode %s: clone group Size differs from its number of fragments" % (p, mode), replay_of(c, {"impl": ru}))
+            if cap >= total:
+                uncapped[(p, mode)] = groups
+                if len(pairs) != total:
+                    ck.broken_ties.append("detector path %s reported %d pairs with cap %d but %d without a cap" % (p, len(pairs), cap, total))
+            else:
+                stats["truncated_runs"] += 1
+                # does the cap matter for this input: would the groups of the uncapped run break the contract on the capped pair list?
+                if (p, mode) in uncapped and py_contract(mode, k, Fraction(thr), pairs, uncapped[(p, mode)]) is not None:
+                    stats["truncation_sensitive"][p] += 1
+            cases.append(c)
+            impls.append([sorted(g) for g in groups])
+    return cases, impls, stats
+
+
+def near_ties(pairs):
+    """Two different similarities closer than the implementation's almostEqual tolerance (the model compares exactly)."""
+    s = sorted(set(float(x[2]) for x in pairs))
+    return any(b - a <= 1e-9 for a, b in zip(s, s[1:]))
 
 
 # --------------------------------------------------------------------------------------
@@ -581,8 +840,20 @@ def main(tier):
     base_e2e = len(cases)
     cases += e2e_cases
     impl_groups += e2e_impl
+    lsh_capped = {}
+    if ck.go_ok:
+        lsh_capped = e2e_lsh_capped(ck, rng, MODES if thorough else [rng.choice(MODES)])
 
     lib.log("C10: e2e %.1fs" % (time.time() - tp)); tp = time.time()
+    # detector level: returned groups against the pairs reported by the same call
+    det_stats = {}
+    if ck.go_ok:
+        det_cases, det_impl, det_stats = detector_cases(ck, rng, thorough)
+        cases += det_cases
+        impl_groups += det_impl
+        if det_stats["truncated_runs"] and not all(det_stats["truncation_sensitive"].values()):
+            ck.broken_ties.append("detector section: a detection path without any capped run in which the cap matters for the groups (generator too weak): %s" % det_stats)
+    lib.log("C10: detector %.1fs" % (time.time() - tp)); tp = time.time()
     # ---------------- property conditions on the implementation's groups (Python) -------
     py_bad = {}
     nontrivial = 0
@@ -608,7 +879,7 @@ def main(tier):
     coq_bad = None
     lattice_agree = 0
     needed = ("Gen/GroupConst", "Clone/GroupSpec.v", "Clone/GroupCommon.v", "Clone/GroupConnected.v", "Clone/GroupComplete.v",
-              "Clone/GroupKCore.v", "Clone/GroupStar.v", "Clone/GroupLattice.v", "Clone/GroupRun.v")
+              "Clone/GroupKCore.v", "Clone/GroupStar.v", "Clone/GroupLattice.v", "Clone/GroupRun.v", "Clone/GroupNorm.v")
     model_files_ok = not any(any(n in f for n in needed) for f in getattr(ck, "failed_files", []))
     if model_files_ok and any(g is not None for g in impl_groups):
         try:
@@ -662,7 +933,11 @@ def main(tier):
             n_viol += 1
             if n_viol <= 5:
                 where = "pyscn analyze, clone.clone_groups[]" if c.get("e2e") else "GroupClones"
-                ck.violation("%s mode %s (threshold %s, k %d): %s" % (where, c["mode"], c["t"], c["k"], why or "check_contract = false"),
+                if c.get("det"):
+                    where = ("detector path %s with MaxClonePairs = %d (%d pairs without a cap, %d reported): returned groups against the "
+                             "reported pairs," % (c["path"], c["cap"], c["uncapped_pairs"], len(c["pairs"])))
+                tshow = c["t"] if c["t"].denominator <= 64 else "%r" % float(c["t"])
+                ck.violation("%s mode %s (threshold %s, k %d): %s" % (where, c["mode"], tshow, c["k"], why or "check_contract = false"),
                              replay_of(c, {"impl_groups": impl_groups[idx], "model": str(cv[0]) if cv else None,
                                            "dir": c.get("dir"), "locations": c.get("locations")}))
             continue
@@ -677,6 +952,8 @@ def main(tier):
         elif not cm:
             ck.broken_ties.append("model output violates the contract (proof tie broken): mode %s pairs %s model %s"
                                   % (c["mode"], replay_of(c)["pairs"], mg))
+        elif not same and c.get("det") and near_ties(c["pairs"]):
+            n_tie -= 1          # similarities closer than almostEqual's tolerance: the exact model may legitimately differ
         elif not same and not c.get("e2e"):
             ck.broken_ties.append("implementation differs from the code model (contract holds for both): mode %s t %s k %d pairs %s impl %s model %s"
                                   % (c["mode"], c["t"], c["k"], replay_of(c)["pairs"], impl_groups[idx], mg))
@@ -698,10 +975,22 @@ def main(tier):
                 "with {absent, t-1/64, t, t+1/64} (t=1/2) and on 5 fragments with the same 4-point lattice (t=3/4): " +
                 ("all resp. every 16th code" if thorough else "a seeded 1/4 resp. 1/700 arithmetic progression of the codes") +
                 " x {connected, complete_linkage, k_core k=2, k_core k=3, star}; structured shapes (degree exactly k, all similarities = t, "
-                "bridges, chains, hubs); random graphs on 2..40 fragments with duplicate pairs; CLI runs per grouping_mode. "
+                "bridges, chains, hubs); random graphs on 2..40 fragments with duplicate pairs; CLI runs per grouping_mode, each also with "
+                "lsh_enabled = \"true\", and " + ("one run per mode" if thorough else "one run (seeded mode)") + " of a 146..150-function project through "
+                "the LSH pipeline that has more clone pairs than the detector's cap of 10000 (groups against the pairs of the same report; Python "
+                "statement of the contract only). DETECTOR LEVEL (hook op clone_groups: real fragment extraction, DetectClones / DetectClonesWithLSH, "
+                "pairs and groups of the SAME call): families of 12..16 (thorough: up to 40) near-identical small functions plus 2..3 weaker "
+                "unrelated ones, for each detection path {standard double loop, batches of 5, LSH} x {connected, complete_linkage, k_core, star} x "
+                "MaxClonePairs in {no cap or exactly the number of pairs, pairs-1, a seeded value <= pairs/3, 1}" +
+                (" (thorough: also pairs-2, 2, a second seeded value)" if thorough else "") + ", grouping threshold on the lattice of the observed "
+                "similarities (an observed value, the next float above it, the lowest value, 0.8): full contract against the REPORTED pairs "
+                "(Python + proved checker via verdict_norm = verdict) and groups = code model on the reported pair list, for every cap; "
+                "truncation_sensitive counts the capped runs in which the groups of the uncapped run would break the contract on the capped "
+                "pair list (the check fails if a path has none). "
                 "distinct_nontrivial = cases where the implementation returned at least one group",
         "input_distribution": dict(lattice=n_lattice, lattice_scopes=[[b, str(t), n, start, stride, cnt] for b, t, e, n, start, stride, cnt in scopes], lattice_impl_equals_model=lattice_agree, structured=n_struct, random=n_rand,
-                                   e2e_cli=len(e2e_cases), by_mode=by_mode),
+                                   e2e_cli=len(e2e_cases), e2e_cli_lsh=sum(1 for c in e2e_cases if c.get("lsh")), e2e_cli_lsh_capped=lsh_capped,
+                                   detector=det_stats, by_mode=by_mode),
         "contract_violations": n_viol,
         "model_mismatches": n_tie,
         "unstable_partitions": unstable,
@@ -712,6 +1001,11 @@ def main(tier):
                    "similarities/thresholds are dyadic (k/64), so float64 >= and Q <= agree exactly; CLI values converted exactly (Fraction(float))",
                    "hand-written models Clone/Group{Connected,Complete,KCore,Star}.v of internal/analyzer/*_grouping.go (union-find as quick-find, "
                    "almostEqual as exact equality, one list for all map iteration orders); group ids/order/Similarity/CloneType not modelled",
-                   "harness/c10.py: generators, Python re-statement of the contract (cross-checked against the proved Coq checker on every case)"]
+                   "harness/c10.py: generators, Python re-statement of the contract (cross-checked against the proved Coq checker on every case "
+                   "except the CLI runs with 10^4 reported pairs, which only the Python statement decides)",
+                   "detector and CLI cases: float64 similarities converted exactly (Fraction(float)); the model's exact equality stands for almostEqual "
+                   "(1e-9): implementation = model is not required when two reported similarities differ by less than that",
+                   "hook cmd/pyscn-verif/op_clone_groups.go (add-only): parses the sources, ExtractFragments, one NewCloneDetector per run, returns the "
+                   "pairs and groups of that call as fragment indices"]
     ck.finish(assumptions=["0 < threshold <= 1, similarities in (0,1]", "no pair joins a fragment with itself",
                            "distinct fragments have distinct locations (fragment number = rank in the location order)"])
